@@ -18,7 +18,7 @@ for s in $seeds; do
   checks=$(python3 tools/seed_checks.py $prop)
   git -C $wt apply $patch || { echo "{\"seed\":\"$id\",\"status\":\"does-not-apply\"}" >> seeded/RESULTS.jsonl; continue; }
   for c in $checks; do
-    out=$(cd $wt && GVC_REPO=$wt GVC_VERIF=$sv /var/tmp/gvc_sweep check $c --tier quick 2>&1); rc=$?
+    out=$(cd $wt && GVC_REPO=$wt GVC_VERIF=$sv /var/tmp/gvc_sweep check $c --tier ${TIER:-quick} 2>&1); rc=$?
     obl=$(echo "$out" | grep -c '^VIOLATION')
     first=$(echo "$out" | grep '^VIOLATION' | head -3 | sed 's/.*obligation=//' | cut -c1-200 | tr '\n' '|' | sed 's/"/\\"/g')
     echo "{\"seed\":\"$id\",\"check\":\"$c\",\"exit\":$rc,\"violations\":$obl,\"repo\":\"$head\",\"verif\":\"$eng\",\"first\":\"$first\"}" >> seeded/RESULTS.jsonl
